@@ -313,7 +313,7 @@ func (m *Machine) runBlock(fr *frame) {
 		case *ssa.MakeMap:
 			m.set(fr, ins, NewMap())
 		case *ssa.MakeChan:
-			m.set(fr, ins, &Chan{})
+			m.set(fr, ins, &Chan{Cap: m.concreteInt(m.get(fr, ins.Size), "chan size")})
 		case *ssa.MakeSlice:
 			n := m.concreteInt(m.get(fr, ins.Len), "make len")
 			c := m.concreteInt(m.get(fr, ins.Cap), "make cap")
@@ -368,7 +368,18 @@ func (m *Machine) runBlock(fr *frame) {
 		case *ssa.Select:
 			unsupportedf("select at %s", m.at(ins.Pos()))
 		case *ssa.Send:
-			m.Stats.FuncsHit["ignored:channel send at "+m.at(ins.Pos())]++
+			// goroutines are never started, so only buffered sends can complete
+			ch, _ := m.get(fr, ins.Chan).(*Chan)
+			if ch == nil {
+				unsupportedf("send on nil channel (blocks forever) at %s", m.at(ins.Pos()))
+			}
+			if ch.Closed {
+				m.goPanicf("send on closed channel at %s", m.at(ins.Pos()))
+			}
+			if len(ch.Buf) >= ch.Cap {
+				unsupportedf("blocking channel send at %s (no goroutine is running to receive)", m.at(ins.Pos()))
+			}
+			ch.Buf = append(ch.Buf, m.get(fr, ins.X))
 		case *ssa.Panic:
 			v := m.get(fr, ins.X)
 			m.goPanicf("panic(%s) at %s", m.describe(v), m.at(ins.Pos()))
@@ -933,6 +944,14 @@ func (m *Machine) callBuiltin(name string, args []Value, call *ssa.CallCommon) V
 		}
 		return r
 	case "close":
+		ch, _ := args[0].(*Chan)
+		if ch == nil {
+			m.goPanicf("close of nil channel")
+		}
+		if ch.Closed {
+			m.goPanicf("close of closed channel")
+		}
+		ch.Closed = true
 		return nil
 	case "ssa:wrapnilchk":
 		p := args[0].(*Value)
